@@ -1,7 +1,6 @@
 (** Laws of the primitive codec (BinPrim.v): little-endian round trips, and the compositional
     invariants every decoder of the model satisfies ([good]): input is only ever consumed, loop fuel
-    never runs out, allocation requests are bounded by the input that was actually there -- except
-    for the one request a failing [read_string] makes. *)
+    never runs out, every buffer is bounded by the input that was actually there. *)
 From Coq Require Import String List ZArith Bool Lia.
 From VibeSQL Require Import Value.SqlValue Codec.BinUtf8 Codec.BinPrim.
 Import ListNotations.
@@ -127,8 +126,9 @@ Proof.
   intros Hu Hl. unfold read_string, w_string. rewrite <- app_assoc.
   pose proof (blen_nonneg s) as Hn.
   rewrite (bind_ok_nil _ _ _ _ _ (u32_roundtrip (blen s) (s ++ rest) (conj Hn Hl))).
-  unfold bind at 1. unfold emit.
-  rewrite (bind_ok_nil _ _ _ _ _ (read_exact_app s rest)). rewrite Hu. reflexivity.
+  unfold bind at 1. unfold buffer_upto.
+  rewrite (bind_ok_nil _ _ _ _ _ (read_exact_app s rest)). rewrite Hu.
+  rewrite blen_app. pose proof (blen_nonneg rest). rewrite Z.min_l by lia. reflexivity.
 Qed.
 
 Example string_roundtrip_nontrivial :
@@ -139,10 +139,6 @@ Proof. apply string_roundtrip; [reflexivity | vm_compute; reflexivity]. Qed.
 Definition is_ok {A} (o : outcome A) : bool := match o with Ok _ _ => true | _ => false end.
 
 Definition ev_le (L : Z) (e : event) : Prop := match e with Alloc n => n <= L end.
-(** every event but possibly the last is bounded *)
-Definition but_last (L : Z) (t : trace) : Prop :=
-  t = [] \/ exists t' e, t = t' ++ [e] /\ Forall (ev_le L) t'.
-
 (** the yardstick: the input length, or the fixed CHAR padding maximum if that is larger *)
 Definition bound (bs : bytes) : Z := Z.max (blen bs) 65535.
 
@@ -159,8 +155,7 @@ Definition tolerated {A} (allowP : panic -> Prop) (allowH allowS : Prop) (o : ou
 
 Record good_at {A} (allowP : panic -> Prop) (allowH allowS : Prop) (m : dec A) (bs : bytes) : Prop := mkGood {
   g_consumes : forall t a rest, m bs = (t, Ok a rest) -> blen rest <= blen bs;
-  g_alloc_ok : forall t a rest, m bs = (t, Ok a rest) -> Forall (ev_le (bound bs)) t;
-  g_alloc : forall t o, m bs = (t, o) -> but_last (bound bs) t;
+  g_alloc : forall t o, m bs = (t, o) -> Forall (ev_le (bound bs)) t;
   g_tol : forall t o, m bs = (t, o) -> tolerated allowP allowH allowS o;
 }.
 Definition good {A} allowP allowH allowS (m : dec A) : Prop := forall bs, good_at allowP allowH allowS m bs.
@@ -179,18 +174,6 @@ Lemma Forall_ev_le_mono L L' t : L <= L' -> Forall (ev_le L) t -> Forall (ev_le 
 Proof.
   intros HL H. induction H as [|e t He _ IH]; constructor; [|exact IH].
   destruct e as [n]; cbn in *; lia.
-Qed.
-
-Lemma but_last_mono L L' t : L <= L' -> but_last L t -> but_last L' t.
-Proof.
-  intros HL [->|(t' & e & -> & H)]; [left; reflexivity|].
-  right. exists t', e. split; [reflexivity|]. eapply Forall_ev_le_mono; eauto.
-Qed.
-
-Lemma but_last_of_all L t : Forall (ev_le L) t -> but_last L t.
-Proof.
-  intros H. induction t as [|e t' _] using rev_ind; [left; reflexivity|].
-  right. exists t', e. split; [reflexivity|]. apply Forall_app in H. tauto.
 Qed.
 
 Lemma bound_mono (a b : bytes) : blen a <= blen b -> bound a <= bound b.
@@ -213,8 +196,7 @@ Section GoodLaws.
   Proof.
     intros bs. split; unfold ret.
     - intros t a' rest [= <- <- <-]. lia.
-    - intros t a' rest [= <- <- <-]. constructor.
-    - intros t o [= <- <-]. left; reflexivity.
+    - intros t o [= <- <-]. constructor.
     - intros t o [= <- <-]. exact I.
   Qed.
 
@@ -222,8 +204,7 @@ Section GoodLaws.
   Proof.
     intros Hn Ht bs. split; unfold stop.
     - intros t a rest [= <- ->]. discriminate.
-    - intros t a rest [= <- ->]. discriminate.
-    - intros t o' [= <- <-]. left; reflexivity.
+    - intros t o' [= <- <-]. constructor.
     - intros t o' [= <- <-]. exact Ht.
   Qed.
 
@@ -250,23 +231,16 @@ Section GoodLaws.
     destruct o1 as [a r| | | | | |];
       try (split;
            [ intros t a' rest; rewrite Hb; intros [= _ ?]; discriminate
-           | intros t a' rest; rewrite Hb; intros [= _ ?]; discriminate
            | intros t o; rewrite Hb; intros [= <- <-]; exact (g_alloc _ _ _ _ _ Gm _ _ Em)
            | intros t o; rewrite Hb; intros [= <- <-]; exact (g_tol _ _ _ _ _ Gm _ _ Em) ]).
     specialize (Gf _ _ _ eq_refl).
     pose proof (g_consumes _ _ _ _ _ Gm _ _ _ Em) as Hc.
-    pose proof (g_alloc_ok _ _ _ _ _ Gm _ _ _ Em) as Ha.
+    pose proof (g_alloc _ _ _ _ _ Gm _ _ Em) as Ha.
     destruct (f a r) as [t2 o2] eqn:Ef.
     split.
     - intros t b rest; rewrite Hb; intros [= <- ->]. pose proof (g_consumes _ _ _ _ _ Gf _ _ _ Ef). lia.
-    - intros t b rest; rewrite Hb; intros [= <- ->]. apply Forall_app. split; [exact Ha|].
-      eapply Forall_ev_le_mono; [apply bound_mono; exact Hc|]. exact (g_alloc_ok _ _ _ _ _ Gf _ _ _ Ef).
-    - intros t o; rewrite Hb; intros [= <- <-].
-      destruct (g_alloc _ _ _ _ _ Gf _ _ Ef) as [->|(t' & e & -> & Ht')].
-      + rewrite app_nil_r. apply but_last_of_all. exact Ha.
-      + right. exists (t1 ++ t'), e. split; [now rewrite app_assoc|].
-        apply Forall_app. split; [exact Ha|].
-        eapply Forall_ev_le_mono; [apply bound_mono; exact Hc|]. exact Ht'.
+    - intros t o; rewrite Hb; intros [= <- <-]. apply Forall_app. split; [exact Ha|].
+      eapply Forall_ev_le_mono; [apply bound_mono; exact Hc|]. exact (g_alloc _ _ _ _ _ Gf _ _ Ef).
     - intros t o; rewrite Hb; intros [= <- <-]. exact (g_tol _ _ _ _ _ Gf _ _ Ef).
   Qed.
 
@@ -313,7 +287,7 @@ Section GoodLaws.
     intros Gi Si bs. unfold loop.
     pose proof (good_at_loop_fuel item Gi Si (S (length bs)) count bs) as H.
     assert (Hlt : blen bs < Z.of_nat (S (length bs))) by (unfold blen; lia).
-    specialize (H Hlt). destruct H as [h1 h2 h3 h4]. split; assumption.
+    specialize (H Hlt). destruct H as [h1 h2 h3]. split; assumption.
   Qed.
 
   Lemma good_at_iter_fuel {St} (body : St -> dec St) :
@@ -333,7 +307,7 @@ Section GoodLaws.
     intros Gb Sb bs. unfold iter.
     pose proof (good_at_iter_fuel body Gb Sb (S (length bs)) count s bs) as H.
     assert (Hlt : blen bs < Z.of_nat (S (length bs))) by (unfold blen; lia).
-    specialize (H Hlt). destruct H as [h1 h2 h3 h4]. split; assumption.
+    specialize (H Hlt). destruct H as [h1 h2 h3]. split; assumption.
   Qed.
 
   (** the same with a state invariant *)
@@ -357,7 +331,7 @@ Section GoodLaws.
     intros Gb Sb Hinv Hs bs. unfold iter.
     pose proof (good_at_iter_fuel_inv Inv body Gb Sb Hinv (S (length bs)) count s bs Hs) as H.
     assert (Hlt : blen bs < Z.of_nat (S (length bs))) by (unfold blen; lia).
-    specialize (H Hlt). destruct H as [h1 h2 h3 h4]. split; assumption.
+    specialize (H Hlt). destruct H as [h1 h2 h3]. split; assumption.
   Qed.
 
   (** the invariant also holds of the final state *)
@@ -438,7 +412,7 @@ Section GoodLaws.
     intros Gi Si bs HF. unfold loop.
     pose proof (good_lt_loop_fuel F item Gi Si (S (length bs)) count bs HF) as H.
     assert (Hlt : blen bs < Z.of_nat (S (length bs))) by (unfold blen; lia).
-    specialize (H Hlt). destruct H as [h1 h2 h3 h4]. split; assumption.
+    specialize (H Hlt). destruct H as [h1 h2 h3]. split; assumption.
   Qed.
 
   Lemma good_lt_iter_fuel {St} F (body : St -> dec St) :
@@ -458,7 +432,7 @@ Section GoodLaws.
     intros Gb Sb bs HF. unfold iter.
     pose proof (good_lt_iter_fuel F body Gb Sb (S (length bs)) count s bs HF) as H.
     assert (Hlt : blen bs < Z.of_nat (S (length bs))) by (unfold blen; lia).
-    specialize (H Hlt). destruct H as [h1 h2 h3 h4]. split; assumption.
+    specialize (H Hlt). destruct H as [h1 h2 h3]. split; assumption.
   Qed.
 
   Lemma good_of_good_lt {A} (m : dec A) : (forall F, good_lt F m) -> good m.
@@ -470,10 +444,8 @@ Section GoodLaws.
     intros bs. split; unfold read_exact; destruct (blen bs <? n) eqn:E.
     - intros t a rest [= _ ?]; discriminate.
     - intros t a rest [= <- <- <-]. unfold blen. rewrite skipn_length. lia.
-    - intros t a rest [= _ ?]; discriminate.
-    - intros t a rest [= <- <- <-]. constructor.
-    - intros t o [= <- <-]. left; reflexivity.
-    - intros t o [= <- <-]. left; reflexivity.
+    - intros t o [= <- <-]. constructor.
+    - intros t o [= <- <-]. constructor.
     - intros t o [= <- <-]. exact I.
     - intros t o [= <- <-]. exact I.
   Qed.
@@ -507,50 +479,35 @@ Section GoodLaws.
   Lemma strict_read_f64 : strict read_f64. Proof. apply strict_map, strict_read_exact; lia. Qed.
   Lemma strict_read_bool : strict read_bool. Proof. apply strict_map, strict_read_exact; lia. Qed.
 
-  (** [vec![0u8; len]] followed by [read_exact]: the request is within the input whenever the read
-      succeeds; when it fails the request is the last event of the trace *)
   Lemma read_exact_fail_run {A} len (k : bytes -> dec A) bs :
     blen bs < len -> (buf <- read_exact len ;; k buf) bs = ([], Err EEof).
   Proof.
     intros H. unfold bind, read_exact. destruct (Z.ltb_spec (blen bs) len); [reflexivity|lia].
   Qed.
 
-  Lemma good_alloc_read {A} len (k : bytes -> dec A) :
-    (forall buf, good (k buf)) -> good (emit (Alloc len) ;;; (buf <- read_exact len ;; k buf)).
+  (** the buffer of [read_string] holds at most what the input holds *)
+  Lemma good_buffer_upto len : good (buffer_upto len).
   Proof.
-    intros Gk bs.
-    assert (G : good_at (buf <- read_exact len ;; k buf) bs)
-      by (apply good_bind; [apply good_read_exact | exact Gk]).
-    destruct ((buf <- read_exact len ;; k buf) bs) as [t2 o2] eqn:E2.
-    assert (Hb : (emit (Alloc len) ;;; (buf <- read_exact len ;; k buf)) bs = (Alloc len :: t2, o2)).
-    { unfold bind at 1. unfold emit. rewrite E2. reflexivity. }
-    destruct (Z_lt_le_dec (blen bs) len) as [Hlt|Hle].
-    - rewrite (read_exact_fail_run len k bs Hlt) in E2. injection E2 as <- <-.
-      split; intros *; rewrite Hb.
-      + intros [= _ ?]; discriminate.
-      + intros [= _ ?]; discriminate.
-      + intros [= <- _]. right. exists [], (Alloc len). split; [reflexivity | constructor].
-      + intros [= _ <-]. exact I.
-    - assert (Hev : ev_le (bound bs) (Alloc len)) by (cbn; unfold bound; lia).
-      split; intros *; rewrite Hb.
-      + intros [= _ ->]. exact (g_consumes _ _ _ _ _ G _ _ _ E2).
-      + intros [= <- ->]. constructor; [exact Hev|]. exact (g_alloc_ok _ _ _ _ _ G _ _ _ E2).
-      + intros [= <- <-]. destruct (g_alloc _ _ _ _ _ G _ _ E2) as [->|(t' & e & -> & Ht')].
-        * right. exists [], (Alloc len). split; [reflexivity | constructor].
-        * right. exists (Alloc len :: t'), e. split; [reflexivity|]. constructor; assumption.
-      + intros [= _ <-]. exact (g_tol _ _ _ _ _ G _ _ E2).
+    intros bs. split; unfold buffer_upto.
+    - intros t a rest [= <- <- <-]. lia.
+    - intros t o [= <- <-]. constructor; [|constructor]. cbn. unfold bound. lia.
+    - intros t o [= <- <-]. exact I.
   Qed.
 
   Lemma good_read_string : good read_string.
   Proof.
     unfold read_string. apply good_bind; [apply good_read_u32|]. intros len.
-    apply good_alloc_read. intros buf. destruct (utf8_valid buf); [apply good_ret | apply good_fail].
+    apply good_bind; [apply good_buffer_upto|]. intros _.
+    apply good_bind; [apply good_read_exact|]. intros buf.
+    destruct (utf8_valid buf); [apply good_ret | apply good_fail].
   Qed.
 
   Lemma strict_read_string : strict read_string.
   Proof.
     unfold read_string. apply strict_bind_l; [apply strict_read_u32|]. intros len.
-    apply good_alloc_read. intros buf. destruct (utf8_valid buf); [apply good_ret | apply good_fail].
+    apply good_bind; [apply good_buffer_upto|]. intros _.
+    apply good_bind; [apply good_read_exact|]. intros buf.
+    destruct (utf8_valid buf); [apply good_ret | apply good_fail].
   Qed.
 
   Lemma good_if {A} (c : bool) (m1 m2 : dec A) : good m1 -> good m2 -> good (if c then m1 else m2).
@@ -567,12 +524,12 @@ End GoodLaws.
 Lemma good_weaken {A} (P Q : panic -> Prop) (H H' S S' : Prop) (m : dec A) :
   (forall p, P p -> Q p) -> (H -> H') -> (S -> S') -> good P H S m -> good Q H' S' m.
 Proof.
-  intros HP HH HS G bs. destruct (G bs) as [g1 g2 g3 g4]. split; auto.
-  intros t o E. specialize (g4 t o E). destruct o; cbn in *; auto.
+  intros HP HH HS G bs. destruct (G bs) as [g1 g2 g3]. split; auto.
+  intros t o E. specialize (g3 t o E). destruct o; cbn in *; auto.
 Qed.
 
-(** * the allocation bound that does NOT hold: a request is not bounded by the input length *)
+(** * the length prefix is not an allocation size: a 4 GiB prefix in front of nothing buffers nothing *)
 Definition over_alloc_input : bytes := [255; 255; 255; 255].
-Lemma read_string_over_allocates :
-  read_string over_alloc_input = ([Alloc 4294967295], Err EEof).
+Lemma read_string_prefix_not_allocated :
+  read_string over_alloc_input = ([Alloc 0], Err EEof).
 Proof. vm_compute. reflexivity. Qed.
